@@ -374,11 +374,13 @@ def fixed_sample_reach(spec, ops):
     trace, mops, archive, table = au.run_impl(spec, ops, obs=False)
     n = len(archive)
     if n == 0:
-        try:
-            archive.sample_elites(1)
-            return "sample_elites on an empty archive did not raise IndexError"
-        except IndexError:
-            return None
+        for size in (1, 0, 5):
+            try:
+                archive.sample_elites(size)
+                return "sample_elites(%d) on an empty archive did not raise IndexError" % size
+            except IndexError:
+                pass
+        return None
     ns = 60 * n + 60
     s = archive.sample_elites(ns)
     cur = set(int(c) for c in archive.data("index"))
@@ -457,6 +459,40 @@ def big_retrieve_stream(rep, rng, n):
                 return
 
 
+def empty_sample_stream(rep, rng):
+    """sample_elites on an empty archive (fresh, or emptied by clear()) raises IndexError, whatever the requested size"""
+    from ribs.archives import ProximityArchive
+    for k in range(8):
+        if k % 4 == 3:
+            a = ProximityArchive(solution_dim=1, measure_dim=2, k_neighbors=1, novelty_threshold=0.5)
+            fill = lambda: a.add_single([1.0], 1.0, [0.25, 0.5])
+            kind = "proximity"
+        else:
+            spec = au.gen_spec(rng, kinds=(("grid",), ("cvt",), ("sliding",))[k % 4], max_cells=12)
+            spec["extras"] = []
+            a = au.make_archive(spec)
+            c = [1, 1.0, [float(lo) for lo, _ in spec["ranges"]]]
+            fill = lambda: a.add_single(**au.single_args(spec, c))
+            kind = spec["kind"]
+        if k >= 4:
+            fill()
+            a.clear()
+        for size in (0, 1, 3):
+            rep.count("empty_sample_calls")
+            try:
+                a.sample_elites(size)
+                raised = None
+            except IndexError:
+                continue
+            except Exception as e:  # noqa
+                raised = e
+            rep.violation("%s archive (%s): sample_elites(%d) on an empty archive %s instead of raising IndexError" % (
+                kind, "after clear()" if k >= 4 else "fresh", size, "returned" if raised is None else "raised %r" % (raised,)),
+                {"kind": "property", "broken": "C07 (sample_elites raises IndexError on an empty archive)", "case": {"archive": kind, "cleared": k >= 4, "size": size}},
+                True, {"kind": "empty-sample"})
+            return
+
+
 def check(rep, tier, seed, driver):
     rng = random.Random(seed)
     n = 160 if tier == "quick" else 3000
@@ -528,3 +564,4 @@ def check(rep, tier, seed, driver):
     run_cases_spec(cases)
     wide_own_stream(rep, rng, 40 if tier == "quick" else 600)
     big_retrieve_stream(rep, rng, 6 if tier == "quick" else 60)
+    empty_sample_stream(rep, rng)
